@@ -123,10 +123,13 @@ def run(R, job):
         if r.random() < 0.3:
             # distinct dependencies may share a name (different versions): every metadata node must be carried, not one per name
             return core.HTMLDependency("shared", "1.%d" % counter[0])
+        if r.random() < 0.15:
+            # other packages of the React ecosystem are ordinary dependencies: they neither replace nor hide react / react-dom
+            return core.HTMLDependency(r.choice(["react-select", "reactable", "react-dom-extras", "preact"]) + str(counter[0]), "1.0")
         return core.HTMLDependency("d%d" % counter[0], "1.0")
 
     def scalar():
-        return r.choice([None, True, False, 3, 2.5, r.choice(STR), _jsx.jsx("JSX_" + r.choice(["a", "fn1", "Z"])), [1, "x", None], {"k": 1, "b": "v"}, ["n", [True, {"z": None}]], (0, 10), ("t", (1, 2)), {"range": (0, 1)}, [("a",)], {"cb": _jsx.jsx("JSX_cb"), "n": 1}, [_jsx.jsx("JSX_a"), "s"], {"deep": {"f": _jsx.jsx("JSX_f")}}])
+        return r.choice([None, True, False, 3, 2.5, r.choice(STR), _jsx.jsx("JSX_" + r.choice(["a", "fn1", "Z"])), [1, "x", None], {"k": 1, "b": "v"}, ["n", [True, {"z": None}]], (0, 10), ("t", (1, 2)), {"range": (0, 1)}, [("a",)], {"cb": _jsx.jsx("JSX_cb"), "n": 1}, [_jsx.jsx("JSX_a"), "s"], {"deep": {"f": _jsx.jsx("JSX_f")}}, {"style": "compact"}, {"style": 2, "k": {"style": {"a": 1}}}, [{"style": None}], {"className": "c", "children": [1]}])
 
     def tag(d):
         kids = [child(d - 1) for _ in range(r.choice([0, 1, 2]))]
@@ -242,9 +245,23 @@ def run(R, job):
         if not os.path.isfile(p):
             fails.append({"input": pkg, "observed": "missing " + p, "expected": "script file in the package"})
 
-    for it in range(n):
+    # a fixed battery first (whatever the seed): a dependency below a tag-valued prop, below a component-valued prop, below a nested tag, in an expansion
+    J, T = _jsx.JSXTag, core.Tag
+
+    def fixed(e):
+        return Tg(lambda e=e: e)
+    directed = [
+        lambda: J("Foo", icon=T("span", "i", dep())),
+        lambda: J("Foo", header=J("Bar", dep(), "h")),
+        lambda: J("Foo", T("div", J("Bar", dep())), dep()),
+        lambda: J("Foo", t=T("div", fixed(T("em", "e", dep())))),
+        lambda: J("Foo", fixed(T("em", dep())), p=T("div", T("p", J("Baz", q=T("i", dep()))))),
+        lambda: J("Foo", T("ul", T("li", dep(), "x"), T("li", J("Bar", icon=T("b", dep()))))),
+        lambda: J("Foo", dep(), dep(), class_="c", data_x=3, style={"color": "red"}),
+    ]
+    for it in range(n + len(directed)):
         counter[0] = 0
-        x = comp(3)
+        x = directed[it]() if it < len(directed) else comp(3)
         checked += 1
         before = snap(x)
         try:
@@ -266,7 +283,7 @@ def run(R, job):
             fails.append({"input": repr(before)[:300], "observed": repr(t1)[:100], "expected": "one <script> element"})
             continue
         got_deps = [d.name + "@" + str(d.version) for d in t1.get_dependencies(dedup=False)]
-        got_deps = [g.split("@")[0] if g.startswith("react") else g for g in got_deps]
+        got_deps = [g.split("@")[0] if g.split("@")[0] in ("react", "react-dom") else g for g in got_deps]
         want = ["react", "react-dom"] + metas(x, [])
         nontrivial += len(want) > 2
         if got_deps[:2] != ["react", "react-dom"] or sorted(got_deps) != sorted(want):
@@ -306,6 +323,22 @@ def run(R, job):
             rej = "other " + type(ex).__name__
         if rej is not (not ok):
             fails.append({"input": f"allowedProps=['alpha','b_c','onChange'], props={props}", "observed": f"rejected={rej}", "expected": f"rejected={not ok}"})
+    # a component accepted under an allow-list converts like any other (the allow-list is a check at construction, nothing else)
+    Listed = _jsx.jsx_tag_create("Listed", allowedProps=["class_", "data_id", "b_c", "child", "onChange"])
+    for props in ({"class_": "a"}, {"data_id": 3, "class_": "k"}, {"b_c": True, "child": core.Tag("i", "t")}, {"child": Listed(class_="inner")}, {}):
+        checked += 1
+        try:
+            x = Listed("kid", core.Tag("b"), **props)
+            s1, s2 = str(x), str(x.tagify())
+            for k in props:
+                nm = k.rstrip("_").replace("_", "-")
+                if s1.count('"' + nm + '":') < 1:
+                    fails.append({"input": f"Listed('kid', b(), **{sorted(props)!r}) with allowedProps naming them", "observed": s1[-300:], "expected": f"prop {nm!r} in the expression"})
+            if s1 != s2:
+                fails.append({"input": f"Listed(**{sorted(props)!r})", "observed": "str(x) != str(x.tagify())", "expected": "same"})
+        except Exception as ex:
+            fails.append({"input": f"Listed('kid', b(), **{sorted(props)!r}) with allowedProps=['class_', 'data_id', 'b_c', 'child', 'onChange']", "observed": "EXC " + type(ex).__name__ + ": " + str(ex)[:120],
+                          "expected": "constructs and converts"})
     # the allow-list belongs to each created function, whatever was created before under the same name
     Free = _jsx.jsx_tag_create("Twice")
     Strict = _jsx.jsx_tag_create("Twice", allowedProps=["ok"])
